@@ -96,7 +96,10 @@ class _Body:
 
 
 class FakeS3Store:
-    def __init__(self, clock: Optional[VClock] = None, page_size: int = 1000):
+    def __init__(self, clock: Optional[VClock] = None, page_size: int = 1000, etag_mode: str = "md5"):
+        # etag_mode 'md5' = what S3 does for simple PUTs: the ETag is the MD5 of the content, so rewriting
+        # identical bytes does NOT change it; 'unique' = a fresh ETag on every write (some S3-compatible stores)
+        self.etag_mode = etag_mode
         self.objects: Dict[Tuple[str, str], Obj] = {}
         self.clock = clock or VClock()
         self.lock = threading.RLock()
@@ -112,8 +115,12 @@ class FakeS3Store:
         self.buckets = None  # None = every bucket exists
 
     # -- helpers ---------------------------------------------------------
-    def _new_etag(self) -> str:
+    def _new_etag(self, body: bytes = b"") -> str:
         self.gen += 1
+        if self.etag_mode == "md5":
+            import hashlib
+
+            return '"' + hashlib.md5(body).hexdigest() + '"'
         return f'"etag-{self.gen:08d}"'
 
     def _last_modified(self, o: Obj) -> datetime:
@@ -163,7 +170,7 @@ class FakeS3Store:
                 if cur.etag != kw["IfMatch"]:
                     req.effect = "412"
                     raise client_error("PreconditionFailed", "PutObject", 412)
-            etag = self._new_etag()
+            etag = self._new_etag(bytes(body))
             self.objects[k] = Obj(bytes(body), etag, self.clock.now(), self.gen)
             req.effect = "written"
         return self._end(req, {"ETag": etag, "ResponseMetadata": {"HTTPStatusCode": 200}})
